@@ -51,6 +51,9 @@ Init == /\ l = 1 /\ run = -1 /\ scen = "" /\ params = <<>> /\ base = NoCirc
 \* cells that detailed placement does not optimise: movable and more than one row high
 Ignored(c) == { i \in Movable(c) : PH(c.cells[i]) # RowH(c) }
 SamePlace(a, b, S) == \A i \in S : a.cells[i].x = b.cells[i].x /\ a.cells[i].y = b.cells[i].y /\ a.cells[i].o = b.cells[i].o
+\* "already legal" includes the row polarity: every polarised movable cell sits on a row its polarity allows
+PolarityRowsAllowed(c) == \A i \in Movable(c) : c.cells[i].p = "ANY" \/
+                             \E ro \in RowOrientsAt(c, c.cells[i]) : CellOrientationInRow(c.cells[i].p, ro) # "INVALID"
 AllRowHigh(c) == \A i \in Movable(c) : PH(c.cells[i]) = RowH(c)
 Positions(c) == [i \in CellIds(c) |-> <<c.cells[i].x, c.cells[i].y>>]
 Placement(c) == [i \in CellIds(c) |-> <<c.cells[i].x, c.cells[i].y, c.cells[i].o>>]
@@ -113,7 +116,7 @@ RetFails(c) ==
     InflightFails \cup FrameFails(c, st = "global") \cup WlFails(c) \cup FiniteFails(c) \cup
     (IF st = "legalize"
      THEN LegalFails("C01", c) \cup OrientFails(call.entry, c) \cup
-          (IF Legal(call.entry) /\ AllRowHigh(call.entry)
+          (IF Legal(call.entry) /\ AllRowHigh(call.entry) /\ PolarityRowsAllowed(call.entry)
            THEN (IF Positions(c) # Positions(call.entry)
                  THEN {F("C11", <<"legal single-row placement moved">>, C11Signature(params))}
                  ELSE {F("note", <<"C11 antecedent held">>, "c11-antecedent")})
